@@ -1515,117 +1515,190 @@ func c18render(unix int64, z byte) string {
 	return t.Format("20060102150405") + string(z)
 }
 
-func c18dayseconds(s string) int { // hhmmssZ -> seconds of day (local to its zone)
-	n := func(a, b int) int { v, _ := strconv.Atoi(s[a:b]); return v }
-	return n(0, 2)*3600 + n(2, 4)*60 + n(4, 6)
+// c18zoneClass: sign class of a zone letter.
+func c18zoneClass(z byte) string {
+	switch h := c18zones[z]; {
+	case h > 0:
+		return "east"
+	case h < 0:
+		return "west"
+	}
+	return "utc"
 }
 
+func c18hhmmss(sec int) string { return fmt.Sprintf("%02d%02d%02d", sec/3600, sec/60%60, sec%60) }
+
+func c18mod(a, m int64) int64 { return (a%m + m) % m }
+
+func c18pos(v, s, e int64) string {
+	switch {
+	case v < s:
+		return "before-start"
+	case v == s:
+		return "at-start"
+	case v == e:
+		return "at-end"
+	case v > e:
+		return "after-end"
+	}
+	return "inside"
+}
+
+func c18sorted64(set map[int64]bool) []int64 {
+	var out []int64
+	for p := range set {
+		out = append(out, p)
+	}
+	sort.Slice(out, func(i, j int) bool { return out[i] < out[j] })
+	return out
+}
+
+// timePrims: bfe_time_range / bfe_periodic_time_range against a reference that works on unix
+// seconds and the zone table of the docs only. Pattern zones: one letter per sign/size class
+// (quick) or every letter the docs list (thorough). Windows touch 000000 and 235959, local noon,
+// morning, evening and the local time of UTC midnight; probe instants lie at the window edges
+// +-1 s / +-1 h, on both sides of LOCAL midnight and of UTC midnight, and on a sweep over the
+// whole day, on two dates; each instant is injected through X-Bfe-Debug-Time rendered in the
+// pattern's zone, in Z and in further zones.
 func (c *c18run) timePrims() {
 	r := c.r
-	zones := []byte{'Z', 'H', 'N', 'M', 'Y'}
+	zones := []byte("ZAHMNRY")
 	if r.Thorough() {
-		zones = []byte("ABCDEFGHIKLMNOPQRSTUVWXYZ")
+		zones = []byte("ZABCDEFGHIKLMNOPQRSTUVWXY")
 	}
 	debug := func(ts string) c18shape {
 		return c18mk("X-Bfe-Debug-Time="+ts, func(m *c18req) { m.hdr = []c18kv{{k: "X-Bfe-Debug-Time", v: ts}} })
 	}
-	ranges := [][2]string{
-		{"20190204203000H", "20190204204500H"},
-		{"20190204203000H", "20190204203000H"},
-		{"20181231235959Z", "20190101000000Z"},
-		{"20190204203000H", "20190204133000Z"},
-		{"20190228235959M", "20190301000001Y"},
-		{"20200229000000N", "20200229235959N"},
+	// zones in which probe i of pattern zone z is rendered
+	renderZones := func(z byte, i int) []byte {
+		if r.Thorough() {
+			return []byte("ZAHMNRY")
+		}
+		out := []byte{z}
+		if z != 'Z' {
+			out = append(out, 'Z')
+		}
+		if o := zones[i%len(zones)]; o != z && o != 'Z' {
+			out = append(out, o)
+		}
+		return out
 	}
+	days := []int64{time.Date(2019, 2, 4, 0, 0, 0, 0, time.UTC).Unix(), time.Date(2020, 2, 29, 0, 0, 0, 0, time.UTC).Unix()}
+	sweepStep := int64(r.Pick(7200, 3600))
+
+	// ---- bfe_periodic_time_range(start, end, "")
+	for _, z := range zones {
+		off := int64(c18zones[z]) * 3600
+		u := c18mod(off, 86400) // local time of day at UTC midnight
+		ulo, uhi := u-1800, u+1800
+		if ulo < 0 {
+			ulo = 0
+		}
+		if uhi > 86399 {
+			uhi = 86399
+		}
+		wins := [][2]int64{{0, 0}, {0, 86399}, {86399, 86399}, {0, 3600}, {82800, 86399}, {75600, 79200}, {32400, 36000}, {43200, 43200}, {ulo, uhi}}
+		seenW := map[[2]int64]bool{}
+		for _, w := range wins {
+			if seenW[w] {
+				continue
+			}
+			seenW[w] = true
+			s, e := w[0], w[1]
+			condStr := fmt.Sprintf("bfe_periodic_time_range(%s, %s, %s)", c18q(c18hhmmss(int(s))+string(z)), c18q(c18hhmmss(int(e))+string(z)), c18q(""))
+			cd := c.cond("bfe_periodic_time_range", condStr)
+			if cd == nil {
+				continue
+			}
+			locals := map[int64]bool{} // local seconds relative to local midnight of the day; <0 / >=86400: neighbour day
+			for _, b := range []int64{s, e} {
+				for _, d := range []int64{-3600, -1, 0, 1, 3600} {
+					locals[b+d] = true
+				}
+			}
+			locals[(s+e)/2] = true
+			for _, d := range []int64{-1, 0, 1} {
+				locals[d] = true         // local midnight
+				locals[86400+d] = true   // next local midnight
+				locals[u+d] = true       // UTC midnight
+				locals[u+43200+d] = true // UTC noon
+			}
+			for l := int64(1800); l < 86400; l += sweepStep {
+				locals[l] = true
+			}
+			for di, day := range days {
+				for i, l := range c18sorted64(locals) {
+					inst := day + l - off
+					sod := c18mod(inst+off, 86400) // seconds of day in the pattern's zone
+					exp := sod >= s && sod <= e
+					dayrel := "utc-same-day"
+					switch ud, ld := (inst-c18mod(inst, 86400))/86400, (inst+off-sod)/86400; {
+					case ud > ld:
+						dayrel = "utc-day-ahead"
+					case ud < ld:
+						dayrel = "utc-day-behind"
+					}
+					class := c18zoneClass(z) + ":" + dayrel + ":" + c18pos(sod, s, e)
+					for _, rz := range renderZones(z, i+di) {
+						c.eval("bfe_periodic_time_range", cd, condStr, debug(c18render(inst, rz)), exp, true, false, class)
+					}
+				}
+			}
+		}
+	}
+
+	// ---- bfe_time_range(start, end)
+	type rng struct{ a, b string }
+	var ranges []rng
+	ranges = append(ranges,
+		rng{"20190204203000H", "20190204204500H"}, // example of the docs
+		rng{"20181231235959Z", "20190101000000Z"},
+		rng{"20190204203000H", "20190204133000Z"},
+		rng{"20190228235959M", "20190301000001Y"},
+	)
+	for i, z := range zones {
+		zs := string(z)
+		z2 := string(zones[(i+3)%len(zones)])
+		ranges = append(ranges,
+			rng{"20190204000000" + zs, "20190204235959" + zs}, // one local day
+			rng{"20190204235959" + zs, "20190205000000" + zs}, // across local midnight
+			rng{"20200229120000" + zs, "20200229120000" + zs}, // a point
+			rng{"20190204060000" + zs, "20190205060000" + z2}, // start and end in different zones
+		)
+	}
+	seenR := map[rng]bool{}
 	for _, rg := range ranges {
-		condStr := fmt.Sprintf("bfe_time_range(%s, %s)", c18q(rg[0]), c18q(rg[1]))
+		s, e := c18instant(rg.a), c18instant(rg.b)
+		if s > e || seenR[rg] {
+			continue // start > end is rejected by Build; not part of the documented space
+		}
+		seenR[rg] = true
+		condStr := fmt.Sprintf("bfe_time_range(%s, %s)", c18q(rg.a), c18q(rg.b))
 		cd := c.cond("bfe_time_range", condStr)
 		if cd == nil {
 			continue
 		}
-		s, e := c18instant(rg[0]), c18instant(rg[1])
+		z := rg.a[14]
+		off := int64(c18zones[z]) * 3600
 		pts := map[int64]bool{}
 		for _, b := range []int64{s, e} {
 			for _, d := range []int64{-86400, -3600, -1, 0, 1, 3600, 86400} {
 				pts[b+d] = true
 			}
+			um := b - c18mod(b, 86400)     // UTC midnight at or before the bound
+			lm := b - c18mod(b+off, 86400) // local midnight (start zone) at or before the bound
+			for _, d := range []int64{-1, 0, 1} {
+				pts[um+d] = true
+				pts[um+86400+d] = true
+				pts[lm+d] = true
+				pts[lm+86400+d] = true
+			}
 		}
 		pts[(s+e)/2] = true
-		var sorted []int64
-		for p := range pts {
-			sorted = append(sorted, p)
-		}
-		sort.Slice(sorted, func(i, j int) bool { return sorted[i] < sorted[j] })
-		for _, p := range sorted {
-			for _, z := range zones {
-				var pos string
-				switch {
-				case p < s:
-					pos = "before-start"
-				case p == s:
-					pos = "at-start"
-				case p == e:
-					pos = "at-end"
-				case p > e:
-					pos = "after-end"
-				default:
-					pos = "inside"
-				}
-				c.eval("bfe_time_range", cd, condStr, debug(c18render(p, z)), p >= s && p <= e, true, false, pos)
-			}
-		}
-	}
-	periods := [][2]string{
-		{"203000H", "204500H"},
-		{"000000Z", "235959Z"},
-		{"000000H", "000000H"},
-		{"235959M", "235959M"},
-		{"000000Y", "000001Y"},
-		{"120000Z", "120000Z"},
-		{"000000N", "115959N"},
-	}
-	day0 := time.Date(2019, 2, 4, 0, 0, 0, 0, time.UTC).Unix()
-	for _, pd := range periods {
-		condStr := fmt.Sprintf("bfe_periodic_time_range(%s, %s, %s)", c18q(pd[0]), c18q(pd[1]), c18q(""))
-		cd := c.cond("bfe_periodic_time_range", condStr)
-		if cd == nil {
-			continue
-		}
-		s, e := c18dayseconds(pd[0]), c18dayseconds(pd[1])
-		off := int64(c18zones[pd[0][6]]) * 3600
-		locals := map[int]bool{}
-		for _, b := range []int{s, e} {
-			for _, d := range []int{-3600, -1, 0, 1, 3600} {
-				locals[b+d] = true // may be <0 or >=86400: neighbouring day
-			}
-		}
-		locals[(s+e)/2] = true
-		var sorted []int
-		for l := range locals {
-			sorted = append(sorted, l)
-		}
-		sort.Ints(sorted)
-		for _, day := range []int64{0, 1, 24} { // 2019-02-04, 2019-02-05, 2019-02-28
-			for _, l := range sorted {
-				inst := day0 + day*86400 + int64(l) - off
-				sod := int(((inst+off)%86400 + 86400) % 86400) // seconds of day in the pattern's zone
-				exp := sod >= s && sod <= e
-				var pos string
-				switch {
-				case sod < s:
-					pos = "before-start"
-				case sod == s:
-					pos = "at-start"
-				case sod == e:
-					pos = "at-end"
-				case sod > e:
-					pos = "after-end"
-				default:
-					pos = "inside"
-				}
-				for _, z := range zones {
-					c.eval("bfe_periodic_time_range", cd, condStr, debug(c18render(inst, z)), exp, true, false, pos)
-				}
+		for i, p := range c18sorted64(pts) {
+			class := c18zoneClass(z) + ":" + c18pos(p, s, e)
+			for _, rz := range renderZones(z, i) {
+				c.eval("bfe_time_range", cd, condStr, debug(c18render(p, rz)), p >= s && p <= e, true, false, class)
 			}
 		}
 	}
@@ -1648,5 +1721,5 @@ func TestVerifC18(t *testing.T) {
 	r.Set("bounds", fmt.Sprintf("pattern lists: all ordered lists (with repetition) of 1..%d atoms over 4-8 atom alphabets incl. the empty string, both case flags; "+
 		"requests: one attribute varied over its alphabet (absent, empty, case variants, prefix/suffix/substring neighbours, decoys in other attributes); "+
 		"IP ranges: all start<=end pairs over the bound sets, addresses = bounds +-1 in 4- and 16-byte form; hash lists derived from the buckets of the value universe; "+
-		"time: window edges -1d,-1h,-1s,0,+1s,+1h,+1d rendered in %d zones; thorough: exact-match (*_in) value lists up to 5 atoms", r.Pick(3, 4), r.Pick(5, 25)))
+		"time: pattern zones %s, windows touching 000000/235959/noon/morning/evening/UTC-midnight, probes at window edges +-1s/+-1h, both sides of local and UTC midnight and a day sweep, on 2 dates, injected via X-Bfe-Debug-Time in >=2 zones; thorough: exact-match (*_in) value lists up to 5 atoms", r.Pick(3, 4), map[bool]string{false: "Z,A,H,M,N,R,Y", true: "all 25 letters"}[r.Thorough()]))
 }
